@@ -309,7 +309,49 @@ def runTol (c : Case) : Res :=
     | some got =>
       let g := Q.ofDy got
       let rel : Q := ⟨1, 10 ^ 9⟩
-      if Q.le (Q.abs (g - want)) (rel * want) then { status := "ok", stats := stats }
-      else { status := "ORACLE", detail := s!"adaptive_tolerance = {qShow g} but base + 1e-12·‖A‖∞ = {qShow want} (constant-one last column excluded: {lastOnes})", stats := stats }
+      if !(Q.le (Q.abs (g - want)) (rel * want)) then
+        { status := "ORACLE", detail := s!"adaptive_tolerance = {qShow g} but base + 1e-12·‖A‖∞ = {qShow want} (constant-one last column excluded: {lastOnes})", stats := stats }
+      else
+      -- `matrix::determinant` (the LU every determinant predicate shares) against the exact
+      -- determinant: the error must stay within the bound the C12 oracle ASSUMES (`luBound`)
+      let k := rows.length
+      match c.ob1 "det" with
+      | "" => { status := "ok", stats := stats }
+      | dT =>
+        match (parseF64 dT).bind F64.dy? with
+        | none => { status := "ORACLE", detail := s!"matrix::determinant returned {dT} on a finite {k}x{k} matrix", stats := stats }
+        | some dgot =>
+          let emin := minExp rows
+          let di := det (scalePts rows emin)
+          let exact := Q.scale2 (Q.ofInt di) (emin * k)
+          -- rigorous allowances only (the tie must not demand more than LU can deliver):
+          --  * a row permutation of an upper-triangular matrix is eliminated with all multipliers
+          --    exactly 0: the result is the product of the pivots, relative error <= (n+1)·2^-53;
+          --  * otherwise the first-order bound of Gaussian elimination with partial pivoting:
+          --    |Δdet| <= Σ_ij |ΔA_ij|·|C_ij|, |ΔA_ij| <= n·2^-53·n·2^(n-1)·max|a| (growth factor),
+          --    |C_ij| <= Π_{r≠i} ‖row_r‖₁ (Hadamard), times 2 for the higher-order terms
+          let qabs (r : List Q) : Q := r.foldl (fun a x => a + Q.abs x) (Q.ofInt 0)
+          let isZero (x : Q) : Bool := x.num == 0
+          -- greedy: column c must have exactly one nonzero among the rows not yet used
+          let tri : Bool := Id.run do
+            let mut rest : List Nat := List.range k      -- indices of rows not yet used as a pivot row
+            let mut ok := true
+            for cIdx in List.range k do
+              let nz := rest.filter (fun ri => !isZero ((q.getD ri []).getD cIdx (Q.ofInt 0)))
+              match nz with
+              | [ri] => rest := rest.filter (· != ri)
+              | _ => ok := false
+            return ok && rest.isEmpty
+          let maxAbs : Q := q.foldl (fun a r => r.foldl (fun b x => if Q.lt b (Q.abs x) then Q.abs x else b) a) (Q.ofInt 0)
+          let norms := q.map qabs
+          let sumCof : Q := (List.range k).foldl (fun acc i =>
+            acc + ((norms.zipIdx).foldl (fun pr (nr, j) => if j == i then pr else pr * nr) (Q.ofInt 1))) (Q.ofInt 0)
+          let general : Q := (⟨(2 * k * k * k * 2 ^ (k - 1) : Nat), 2 ^ 53⟩ : Q) * maxAbs * sumCof
+          let bound : Q := if tri then (⟨(2 * (k + 1) : Nat), 2 ^ 53⟩ : Q) * Q.abs exact else general
+          let err := Q.abs (Q.ofDy dgot - exact)
+          let cls := if exact.num == 0 then "zero" else if Q.le (err * Q.ofInt 1000) bound then "lt_bound_1e-3" else if Q.le err bound then "le_bound" else "gt_bound"
+          let stats := s!"tol.det.{if tri then "triangular" else "general"}.{cls}" :: (if Q.lt (luBound q) err then "tol.det.beyond_predicate_allowance" :: stats else stats)
+          if Q.le err bound then { status := "ok", stats := stats }
+          else { status := "ORACLE", detail := s!"matrix::determinant = {qShow (Q.ofDy dgot)} but the exact determinant is {qShow exact}: error beyond the LU bound {qShow bound} that the predicate oracle assumes", stats := stats }
     | none => { status := "ORACLE", detail := s!"adaptive_tolerance returned {c.ob1 "tol"}", stats := stats }
   | _, _ => { status := "skip", detail := "non-finite" }
